@@ -218,7 +218,7 @@ PROPS["C17"] = {
     "level": "fault_enumeration",
     "technique": "exhaustive enumeration of (parameter-group layout, request history, restart point, NVM fault positions) on the real 1010h/1011h store/load path with a harness-owned NVM device, against a reference model (RAM image, NVM image, last successfully stored image per group)",
     "text": "9 layouts (1..4 groups, sizes {1,2,5,64}, both reset types, enabled/disabled/autonomous flags, adjacent NVM offsets with guard bytes). Per layout every request history of length 3 (quick) / 4 (thorough) over {'save' and a wrong value to every 1010h sub-index, 'load' and a wrong value to every 1011h sub-index, an application change of each group, NMT reset node / communication}, every restart point (discard node and RAM, keep NVM, initialise again) and every position k at which the k-th NVM driver call is short by one byte or returns 0 (one fault; thorough additionally two faults on histories of length 3); plus a sweep of 41 wrong signature values per object and sub-index and the first initialisation on an erased device. After every request the SDO verdict, the complete 512-byte NVM image, the RAM image, the COParaDefault calls and - after restarts and resets - the reloaded groups are compared with the reference; a short write must never be confirmed, a short read must leave a node error.",
-    "note": "sub-index 1 means 'all groups' (placeholder CO_PARA) when there are >= 2 groups, as the repository's own unit test builds it; a request addressing a disabled group may be confirmed or aborted; the content of a group whose own driver call was short is adopted from the implementation; groups of the other reset type may be reloaded or left alone on an NMT reset",
+    "note": "sub-index 1 means 'all groups' (placeholder CO_PARA) when there are >= 2 groups, as the repository's own unit test builds it; a request addressing a disabled group may be confirmed or aborted; the content of a group whose own driver call was short is adopted from the implementation; NMT reset node reloads the node groups AND the communication groups (co_nmt.h: "reset application (and communication)"; CiA 301 passes from reset application through reset communication; C20 equates it with a fresh start, which loads every group); on NMT reset communication the node groups may be reloaded or left alone",
     "rule": "a case is a tuple (layout, request history, restart point, fault positions and kinds) executed from a restored snapshot; non-trivial = at least one NVM driver call or SDO answer happened; distinct = distinct hashes of verdicts, driver-call log and final images",
     "jobs": {
         "quick":    [J("c17", c) for c in range(9)],
@@ -262,11 +262,11 @@ PROPS["C19"] = {
 PROPS["C20"] = {
     "level": "model_checking",
     "technique": "metamorphic differential exploration: BFS over a mixed history alphabet; in every reached state the node after an NMT reset is compared, under every probe sequence, with a freshly initialised node holding the same dictionary values (the implementation is its own reference)",
-    "text": "Node with heartbeat producer and two consumers, SYNC (consumer or producer), EMCY, an asynchronous RPDO, an event-driven and a synchronous TPDO, SDO server, SDO client, LSS, an application timer. 36 history events: ticks; SDO writes to 1017h, 1016h, 1005h, 1006h, 1014h, 1800h:1/:3/:5; heartbeat frames; SDO transfers left open in every phase (segmented and block, up and down); a busy SDO client and its response; COEmcySet/Clr; LSS configure node-id + store; NMT start/stop/pre-op; application timer create/delete; RPDO frame; TPDO trigger. In every discovered state s (on copies): A = s followed by NMT reset communication (configurations 0,2) or reset node (1,3); B = the pristine pre-initialisation memory image into which the dictionary values of A (not the run-time fields next to them), the NVM image and the LSS store are copied, then CONodeInit + CONodeStart. For every probe sequence of length <= 2 (3) over 14 probes (SDO reads, SYNC, heartbeat of a monitored node, RPDO, NMT start, LSS inquiry, SDO client transfer, 4 ticks, segmented upload, COEmcySet, TPDO trigger, SDO write+read) the complete traces (frames per tick, callbacks, NMT mode, node id) of A and B must be equal; the timer slots in use after the reset must equal those of the fresh node plus the live application timers.",
+    "text": "Node with heartbeat producer and two consumers, SYNC (consumer or producer), EMCY, an asynchronous RPDO, an event-driven and a synchronous TPDO, SDO server, SDO client, LSS, an application timer; two further configurations keep 1017h in a communication parameter group with an NVM image (1010h:1, event "save"), so that RAM and NVM differ at the reset and the fresh node loads the NVM image. 36 (37) history events: ticks; SDO writes to 1017h, 1016h, 1005h, 1006h, 1014h, 1800h:1/:3/:5; heartbeat frames; SDO transfers left open in every phase (segmented and block, up and down); a busy SDO client and its response; COEmcySet/Clr; LSS configure node-id + store; NMT start/stop/pre-op; application timer create/delete; RPDO frame; TPDO trigger. In every discovered state s (on copies): A = s followed by NMT reset communication (configurations 0,2) or reset node (1,3); B = the pristine pre-initialisation memory image into which the dictionary values of A (not the run-time fields next to them), the NVM image and the LSS store are copied, then CONodeInit + CONodeStart. For every probe sequence of length <= 2 (3) over 14 probes (SDO reads, SYNC, heartbeat of a monitored node, RPDO, NMT start, LSS inquiry, SDO client transfer, 4 ticks, segmented upload, COEmcySet, TPDO trigger, SDO write+read) the complete traces (frames per tick, callbacks, NMT mode, node id) of A and B must be equal; the timer slots in use after the reset must equal those of the fresh node plus the live application timers.",
     "note": "1003h (error history) is not part of the dictionary: whether a reset clears it is not fixed by the statement; application timer callbacks are removed from the traces; depth-bounded",
     "jobs": {
-        "quick": [J("c20", c, depth=4, deadline=100) for c in range(4)],
-        "thorough": [J("c20", c, depth=5, deadline=1500, max_states=5000000) for c in range(4)] + [J("c20", c, depth=3, deadline=1500, opts={"plen": 3}) for c in range(4)],
+        "quick": [J("c20", c, depth=4, deadline=100) for c in range(6)],
+        "thorough": [J("c20", c, depth=5, deadline=1500, max_states=5000000) for c in range(6)] + [J("c20", c, depth=3, deadline=1500, opts={"plen": 3}) for c in range(6)],
     },
 }
 
